@@ -50,13 +50,24 @@ def check(ctx):
     ]
 
 
+def _nf(repo, f):
+    """functions of gaftools.gfa with their private helpers (leading underscore) inlined"""
+    from ..core import tail_inlined
+
+    if f.module.name != "gaftools.gfa":
+        return f
+    return tail_inlined(repo, f, keep=lambda c: not c.name.startswith("_") or c.name.startswith("__"))
+
+
 def r15_1(ctx, g):
     repo = ctx.repo
     mutators = {"add", "remove", "discard", "clear", "update", "pop", "difference_update", "intersection_update", "symmetric_difference_update"}
     owners = set()
     viol = []
     n = 0
-    for f in repo.all_funcs():
+    nf = lambda f: _nf(repo, f)  # noqa: E731
+
+    for f in map(nf, repo.all_funcs()):
         for c in walk_own(f.node):
             # direct mutation of an adjacency set:  X.start.add(...)  /  X.end.remove(...)
             if isinstance(c, ast.Call) and isinstance(c.func, ast.Attribute) and c.func.attr in mutators and isinstance(c.func.value, ast.Attribute) and c.func.value.attr in ("start", "end"):
@@ -199,7 +210,7 @@ def r15_3(ctx, g):
     purge = {}
     add_side = {"GFA.add_node", "GFA.add_edge", "GFA.read_graph", "GFA.__setitem__"}
     rm_side = {"GFA.remove_node", "GFA.remove_edge", "GFA.__delitem__"}
-    for f in repo.module("gaftools.gfa").funcs.values():
+    for f in [_nf(repo, f0) for f0 in repo.module("gaftools.gfa").funcs.values()]:
         for s in walk_own(f.node):
             for r in regs:
                 base = f"self.{r}"
@@ -274,8 +285,11 @@ def r15_3(ctx, g):
 def r15_4(ctx, g):
     repo = ctx.repo
     tolerant = {}
+    from ..core import tail_inlined
+    from .c09 import guards_of
+
     for name in ("Node.remove_from_start", "Node.remove_from_end"):
-        f = repo.func("gaftools.gfa", name, "R15.4")
+        f = tail_inlined(repo, repo.func("gaftools.gfa", name, "R15.4"))
         ctx.analysed_func(f)
         ok = False
         for c in walk_own(f.node):
@@ -284,6 +298,12 @@ def r15_4(ctx, g):
             if isinstance(c, ast.Call) and isinstance(c.func, ast.Attribute) and c.func.attr == "remove":
                 for t in walk_own(f.node):
                     if isinstance(t, ast.Try) and any(x is c for b in t.body for x in ast.walk(b)) and any(h.type is None or "KeyError" in norm(h.type) or norm(h.type) == "Exception" for h in t.handlers):
+                        ok = True
+                # membership-guarded removal: if x in S: S.remove(x)
+                stmt = _stmt_with(f, c)
+                if stmt is not None and c.args:
+                    want = (f"{norm(c.args[0])} in {norm(c.func.value)}", True)
+                    if any(canon_test(t, pol) == want for t, pol in guards_of(f.node, stmt)):
                         ok = True
         tolerant[name] = ok
     # alternatively remove_edge may skip the second removal when both ends coincide
